@@ -14,6 +14,10 @@ term, or raises).  Two small interpreters over the `ast` do the work:
         whose leaves are the pushed value; `/` is kept as an effect (`let t <- PyF.div a b`) at the place of the path
         where Python evaluates it (a zero divisor raises there).  On every path the step must pop exactly its arity and
         push exactly one value.  Operands are named by position (`val1` = pushed first).
+      - `Clipper`: `__init__` is run to find the instance attributes holding the two Optional[float] bounds (by
+        constructor position: lo, hi); `apply` is then translated like a unary step with the atoms `lo.isSome` /
+        `hi.isSome` for `<attr> is [not] None`; a bound is a float only where it is known not to be None
+        (`Extracted.Formula.unClipper lo hi val`, which IS the model's `clipVal`).
       - `FormulaEvaluator.apply`: from the last `<x> = <stack>.pop()` on, the returned `Sample`'s value is either
         `<create>(x)` or None; the decision over `isnan / isinf / isfinite (x)`, tabulated for the three classes
         nan | inf | finite, is `resultIsNone`.
@@ -184,6 +188,7 @@ def _bind_params(fn, args: list, kwargs: dict, what: str) -> dict:
 # ================================================================ Sx: symbolic execution of loop-free float code
 # values:  ("f", lean term) float | ("b", bool) | ("none",) | ("stack",) | ("tuple", [values]) | ("self",)
 #          ("fn", node, closure env, self class | None) | ("prim", dotted name) | ("sample", value) | ("created",)
+#          ("opt", lean name of an `Option Rat`) an Optional[float] instance attribute
 # nodes:   ("ret", leaf) | ("let", t, a, b, node) | ("if", atom, node, node)
 class St:
     """Immutable-by-convention path state."""
@@ -210,10 +215,12 @@ _OPERATOR = {"operator.add": ast.Add, "operator.sub": ast.Sub, "operator.mul": a
 class Sx:
     PRIMS = {"math.isnan": "PyF.isnan"}
     MAX_DEPTH = 12
+    init_mode = False          # True while `__init__` is run: stores to `self.<attr>` are recorded
 
     def __init__(self, mod: Module, cname: str | None, what: str, operand_names: list[str] | None = None) -> None:
         self.mod, self.cname, self.what = mod, cname, what
         self.operand_names = operand_names or []      # by pop order
+        self.inst_attrs: dict = {}                    # instance attributes set by __init__ (name -> value)
 
     # ------------------------------------------------------------ helpers
     def bad(self, msg: str):
@@ -229,7 +236,12 @@ class Sx:
         q = f"({fr.numerator} : Rat)" if fr.denominator == 1 else f"(({fr.numerator} : Rat) / {fr.denominator})"
         return f"(PyF.lit {q})"
 
-    def flt(self, v, src: ast.AST) -> str:
+    def flt(self, v, src: ast.AST, st: "St | None" = None) -> str:
+        if v[0] == "opt":
+            # an Optional[float] instance attribute: a float only on a path where `is not None` was established
+            if st is not None and (f"({v[1]}.isSome)", True) in st.facts:
+                return f"(PyF.lit ({v[1]}.getD 0))"
+            self.bad(f"{ast.unparse(src)!r}: the optional attribute may be None here")
         if v[0] != "f":
             self.bad(f"a float is needed in {ast.unparse(src)!r}")
         return v[1]
@@ -277,9 +289,9 @@ class Sx:
             if isinstance(e.op, ast.Not):
                 return self.cond(e, st, lambda s: k(("b", True), s), lambda s: k(("b", False), s))
             if isinstance(e.op, ast.USub):
-                return self.eval(e.operand, st, lambda v, s: k(("f", f"(PyF.neg {self.flt(v, e)})"), s))
+                return self.eval(e.operand, st, lambda v, s: k(("f", f"(PyF.neg {self.flt(v, e, s)})"), s))
             if isinstance(e.op, ast.UAdd):
-                return self.eval(e.operand, st, lambda v, s: k(("f", self.flt(v, e)), s))
+                return self.eval(e.operand, st, lambda v, s: k(("f", self.flt(v, e, s)), s))
             self.bad(f"operator {type(e.op).__name__}")
         if isinstance(e, ast.BinOp):
             return self.eval(e.left, st, lambda a, s1: self.eval(e.right, s1, lambda b, s2: self.binop(type(e.op), a, b, s2, k, e)))
@@ -316,6 +328,8 @@ class Sx:
     def self_attr(self, attr: str, st: St, k, src: ast.AST):
         if self.cname is None:
             self.bad(f"attribute {ast.unparse(src)!r}")
+        if attr in self.inst_attrs:
+            return k(self.inst_attrs[attr], st)
         m = self.mod.method(self.cname, attr)
         if m is not None:
             return k(("fn", m[0], {}, self.cname), st)
@@ -328,7 +342,7 @@ class Sx:
         self.bad(f"attribute {ast.unparse(src)!r}")
 
     def binop(self, op, a, b, st: St, k, src: ast.AST):
-        x, y = self.flt(a, src), self.flt(b, src)
+        x, y = self.flt(a, src, st), self.flt(b, src, st)
         if op in (ast.Add, ast.Mult):      # commutative (IEEE and model): operands in a fixed order
             x, y = sorted((x, y))
         if op is ast.Add:
@@ -354,7 +368,7 @@ class Sx:
                     self.bad(f"pops more than {len(self.operand_names)} values")
                 return k(("f", self.operand_names[st.npop]), st.but(npop=st.npop + 1))
             if f.attr == "append" and len(e.args) == 1 and not e.keywords:
-                return self.eval(e.args[0], st, lambda v, s: k(("none",), s.but(pushed=s.pushed + (self.flt(v, e),))))
+                return self.eval(e.args[0], st, lambda v, s: k(("none",), s.but(pushed=s.pushed + (self.flt(v, e, s),))))
             self.bad(f"stack operation {ast.unparse(e)!r}")
         if any(kw.arg is None for kw in e.keywords):
             self.bad("** arguments")
@@ -396,15 +410,15 @@ class Sx:
         if kwargs:
             self.bad(f"keyword arguments in {ast.unparse(src)!r}")
         if name in ("max", "min") and len(args) == 2:
-            return k(("f", f"(PyF.{name} {self.flt(args[0], src)} {self.flt(args[1], src)})"), st)
+            return k(("f", f"(PyF.{name} {self.flt(args[0], src, st)} {self.flt(args[1], src, st)})"), st)
         if name == "float" and len(args) == 1 and args[0][0] == "f":
             return k(args[0], st)
         if name == "operator.neg" and len(args) == 1:
-            return k(("f", f"(PyF.neg {self.flt(args[0], src)})"), st)
+            return k(("f", f"(PyF.neg {self.flt(args[0], src, st)})"), st)
         if name in _OPERATOR and len(args) == 2:
             return self.binop(_OPERATOR[name], args[0], args[1], st, k, src)
         if name in self.PRIMS and len(args) == 1:
-            atom = f"({self.PRIMS[name]} {self.flt(args[0], src)})"
+            atom = f"({self.PRIMS[name]} {self.flt(args[0], src, st)})"
             return self.mk_if(atom, st, lambda s: k(("b", True), s), lambda s: k(("b", False), s))
         self.bad(f"call {ast.unparse(src)!r}")
 
@@ -434,11 +448,14 @@ class Sx:
 
     def compare(self, op, a, b, st: St, kt, kf, src: ast.AST):
         if op in (ast.Is, ast.IsNot):
-            if "none" not in (a[0], b[0]) or not {a[0], b[0]} <= {"none", "f"}:
+            if "none" not in (a[0], b[0]) or not {a[0], b[0]} <= {"none", "f", "opt"}:
                 self.bad(f"comparison {ast.unparse(src)!r}")
+            if "opt" in (a[0], b[0]):
+                o = a if a[0] == "opt" else b
+                return self.mk_if(f"({o[1]}.isSome)", st, *((kf, kt) if op is ast.Is else (kt, kf)))
             same = a[0] == b[0]
             return (kt if same == (op is ast.Is) else kf)(st)
-        x, y = self.flt(a, src), self.flt(b, src)
+        x, y = self.flt(a, src, st), self.flt(b, src, st)
         if op is ast.Eq:
             return self.mk_if(f"(PyF.eq {x} {y})", st, kt, kf)
         if op is ast.NotEq:
@@ -502,6 +519,9 @@ class Sx:
     def assign(self, tgt: ast.expr, v, st: St) -> St:
         if isinstance(tgt, ast.Name):
             return st.bind(tgt.id, v)
+        if self.init_mode and isinstance(tgt, ast.Attribute) and isinstance(tgt.value, ast.Name) \
+                and st.env.get(tgt.value.id, (None,))[0] == "self":
+            return st.bind("self." + tgt.attr, v)
         if isinstance(tgt, (ast.Tuple, ast.List)) and v[0] == "tuple" and len(tgt.elts) == len(v[1]):
             for t, w in zip(tgt.elts, v[1]):
                 st = self.assign(t, w, st)
@@ -600,6 +620,50 @@ def translate_step(mod: Module, cname: str, arity: int) -> str:
     tree = sx.exec(_strip_doc(fn.body), St(env), finish, lambda _v, st: finish(st))
     kind = "bin" if arity == 2 else "un"
     head = f"def Extracted.Formula.{kind}{cname} " + " ".join(f"({p} : V)" for p in params) + " : M V := do"
+    return head + "\n" + "\n".join(_emit_m(canon(tree), "  ")) + "\n"
+
+
+def translate_clipper(mod: Module) -> str:
+    """`Clipper`: `__init__(self, <lo>, <hi>)` (two Optional[float] bounds, by position) is run to see which instance
+    attributes hold them; then `apply` is translated like the other unary steps, with tests `<attr> is [not] None`
+    as atoms `lo.isSome` / `hi.isSome` (a bound can only be used as a float where it is known not to be None)."""
+    cname = "Clipper"
+    mod.cls(cname)
+    init = mod.method(cname, "__init__")
+    if init is None or isinstance(init[0], ast.AsyncFunctionDef):
+        raise Unsupported("Clipper.__init__ not found")
+    sx = Sx(mod, cname, "Clipper.__init__")
+    sx.init_mode = True
+    env = _bind_params(init[0], [("self",), ("opt", "lo"), ("opt", "hi")], {}, "Clipper.__init__")
+    finals: list[St] = []
+
+    def done(st: St):
+        finals.append(st)
+        return ("ret", str(sorted((k, v) for k, v in st.env.items() if k.startswith("self."))))
+
+    tree = sx.exec(_strip_doc(init[0].body), St(env), done, lambda _v, st: done(st))
+    if tree[0] != "ret" or not finals:
+        raise Unsupported("Clipper.__init__: the attributes depend on a test")
+    attrs = {k[5:]: v for k, v in finals[0].env.items() if k.startswith("self.")}
+    if sorted(v for v in attrs.values() if v[0] == "opt") != [("opt", "hi"), ("opt", "lo")] or \
+            any(v[0] not in ("opt", "f", "none", "b") for v in attrs.values()):
+        raise Unsupported(f"Clipper.__init__: attributes {attrs}")
+
+    what = "Clipper.apply"
+    m = mod.method(cname, "apply")
+    if m is None or isinstance(m[0], ast.AsyncFunctionDef) or _is_static(m[0]) or _is_classmethod(m[0]):
+        raise Unsupported(f"{what} not found")
+    sx = Sx(mod, cname, what, operand_names=["val"])
+    sx.inst_attrs = attrs
+    env = _bind_params(m[0], [("self",), ("stack",)], {}, what)
+
+    def finish(st: St):
+        if st.npop != 1 or len(st.pushed) != 1:
+            sx.bad(f"pops {st.npop} / pushes {len(st.pushed)} values on some path, expected 1 / 1")
+        return ("ret", st.pushed[0])
+
+    tree = sx.exec(_strip_doc(m[0].body), St(env), finish, lambda _v, st: finish(st))
+    head = "def Extracted.Formula.unClipper (lo hi : Option Rat) (val : V) : M V := do"
     return head + "\n" + "\n".join(_emit_m(canon(tree), "  ")) + "\n"
 
 
@@ -1340,5 +1404,6 @@ def generate(repo: pathlib.Path) -> str:
         out.append(translate_step(steps, c, 2))
     for c in UNARY:
         out.append(translate_step(steps, c, 1))
+    out.append(translate_clipper(steps))
     out.append(final_test((repo / SOURCES[3]).read_text()))
     return "\n".join(out)
